@@ -383,9 +383,9 @@ func bounds(tier string) (explore.Bounds, int) {
 	b[explore.KTime] = 0
 	if vsched.RaceMode {
 		if tier == "thorough" {
-			return b, 3
+			return b, 2
 		}
-		return b, 2
+		return b, 1
 	}
 	if tier == "thorough" {
 		return b, 3
